@@ -1093,6 +1093,11 @@ func (p *Proof) undoAdd(numAdds, numLeaves uint64, cachedHashes []Hash, toDestro
 		}
 	}
 
+	// The positions that moved down are no longer in order with the ones that stayed
+	// where they were. Everything below expects them to be sorted.
+	sort.Sort(targetsWithHash)
+	sort.Sort(proofWithPos)
+
 	// Prune all positions that can't exist in the previous forest rows.
 	var err error
 	targetsWithHash, err = pruneEdges(targetsWithHash, numAdds, numLeaves, forestRows, prevForestRows)
